@@ -140,7 +140,7 @@ def rule_effect(facts):
 def rule_residual(facts):
     rr = RuleResult("EFFECT/residual-nest", "Residual::write is the partition/sample loop nest and count_bits is its "
                     "closed form over the cached sums")
-    rr.require_floor(8, "Residual obligations")
+    rr.require_floor(10, "Residual obligations")
     impls = [x for x in bitrepr_impls(facts) if x[0].endswith("::Residual")]
     if len(impls) != 1:
         raise FactError("impl BitRepr for Residual not found")
@@ -320,6 +320,52 @@ def rule_residual(facts):
     else:
         bad("closed-form", "Residual::count_bits returns %s\nclosed form of the writer's loop nest: %s"
             % (E.nf_show(cnf), E.nf_show(refnf)))
+    # ---- the premises of the closed form are enforced by Residual::verify (so that every Residual a public constructor or
+    # the parser hands out satisfies them): the partitions tile the block and the warm-up lies within the first partition
+    vb = None
+    for b in facts.body_list:
+        if b.raw.get("impl_trait") == "error::Verify" and b.raw.get("impl_self") == ty and b.raw.get("name") == "verify":
+            vb = b
+    if vb is None:
+        bad("verify-impl", "impl Verify for Residual not found")
+        return [rr]
+    vctx = E.Ctx(facts)
+    vctx.open_loops = True
+    vctx.log_calls = r"verify_macro_impl$"
+    vit = E.Interp(vctx, vb)
+    try:
+        vit.run()
+    except E.Undecided as e:
+        bad("undecided-verify", "cannot summarise Residual::verify: %s" % e)
+        return [rr]
+    conds = [E.strip_casts(c[1][0]) for c in vctx.calls]
+    Lnf = NFX(norm.nf(L_e))
+    Wnf = NFX(norm.nf(A(fW)))
+    BSnf = NFX(norm.nf(A(fBS)))
+    Cnf = NFX(norm.nf(("bin", "Shl", E.C(1), A(fPO))))
+    tiles = within = False
+    for cnd in conds:
+        if not (isinstance(cnd, tuple) and cnd[0] == "bin"):
+            continue
+        try:
+            a, b_ = NFX(norm.nf(cnd[2])), NFX(norm.nf(cnd[3]))
+        except E.Undecided:
+            continue
+        if cnd[1] == "Eq" and ((E.nf_eq(a, E.nf_mul(Lnf, Cnf)) and E.nf_eq(b_, BSnf)) or
+                               (E.nf_eq(b_, E.nf_mul(Lnf, Cnf)) and E.nf_eq(a, BSnf))):
+            tiles = True
+        if (cnd[1] == "Le" and E.nf_eq(a, Wnf) and E.nf_eq(b_, Lnf)) or (cnd[1] == "Ge" and E.nf_eq(b_, Wnf) and E.nf_eq(a, Lnf)):
+            within = True
+    if tiles:
+        rr.ok({"clause": "Residual::verify enforces partition_len * partitions == block_size", "where": vb.loc()})
+    else:
+        bad("premise/partitions-tile-block", "Residual::verify does not check that (block_size >> order) * (1 << order) == "
+            "block_size: for other shapes the writer's loop nest and count_bits's closed form differ")
+    if within:
+        rr.ok({"clause": "Residual::verify enforces warm-up <= partition length", "where": vb.loc()})
+    else:
+        bad("premise/warm-up-in-first-partition", "Residual::verify does not check warmup_length <= block_size >> order: "
+            "count_bits charges the warm-up to the first partition only, the writer skips it in every partition it reaches")
     # the only other builders of Residual are derive-generated
     rr.ok({"clause": "single hand-written Residual aggregate site", "site": ctor.id})
     rr.ok({"clause": "unroll idiom: loop step equals the repeat count and the guard is t0+off<end", "verdict": "ok"})
